@@ -216,7 +216,7 @@ def run_c15(tier):
                    "decision must be one the specification allows given the INDEPENDENT fingerprint (fp_changed => apply_rewrites returned true), "
                    "reports checked, saturation re-checked; non-trivial = iterations that changed the fingerprint",
            "stop_reasons_seen": reasons, "tlc_model": mst, "tlc_trace": st, "recorder": summ}
-    finish(prop, tier, t0, findings, cov, assumptions=["time limits are not exercised (time_limit is set far away)"])
+    finish(prop, tier, t0, findings, cov, assumptions=["the loop's own clock is bracketed by the recorder's clock (hook time stamps), not read; time limits used: the defaults, zero and 5 s"])
 
 
 def c14_constfold(tier):
